@@ -464,23 +464,37 @@ def stated_orders(F, rep):
                 ok = cuts and key_ok
                 detail = f"disposals sorted by (date, ticker) via {m} on every path" if ok else f"sort {m}: key_ok={key_ok}, on_all_paths={cuts}"
             rep.ob("R4", f"{b.short}:disposals-date-ticker", ok, detail, b.loc(), key=f"R4:{b.short}:disposals-date-ticker")
-    # (d) plain text echo: in the plain formatter every Vec<&Transaction> that is iterated is sorted first
+    # (d) plain text echo: in the plain formatter every Vec collected from the transaction slice (references, or line views
+    #     projected from them, in the function itself or in a generic helper) is sorted by (date, ticker) before it is
+    #     iterated or returned
     for b in F.bodies.values():
         if b.crate != "cgt_formatter_plain" or b.kind != "fn":
             continue
+        tbp = Terms(F, b, inline_depth=0)
+        tx_params = {k for k in range(b.argc) if "cgt_core::models::Transaction" in b.local_ty(k + 1) and ("[" in b.local_ty(k + 1) or "Vec<" in b.local_ty(k + 1))}
         for l, d in enumerate(b.locals):
-            if d["ty"].startswith("alloc::vec::Vec<&cgt_core::models::Transaction") and d.get("name"):
-                n += 1
-                srt = [(i, t, m) for i, t, m, r in sort_calls(F, b, wr) if r and r[0] == l]
-                # iteration sites: into_iter on the vec
-                its = [i for i, t in b.calls() if parse_callee(t["callee"])[2] == "into_iter"
-                       and (op_place(t["args"][0]) or {}).get("l") == l]
-                ok = bool(srt) and all(any(b.dominates(si, it) for si, _, _ in srt) for it in its) and \
-                    all(_is_date_ticker_sort(F, b, t, m) for _, t, m in srt)
-                rep.ob("R4", f"{b.short}:{d['name']}:echo-date-ticker", ok,
-                       "transaction echo sorted by (date, ticker) before it is printed" if ok else
-                       "transaction echo is printed without a dominating (date, ticker) sort", b.loc(),
-                       key=f"R4:{b.short}:{d['name']}:echo-order")
+            if not (d["ty"].startswith("alloc::vec::Vec<") and d.get("name")) or l <= b.argc:
+                continue
+            init = tbp.local(l)
+            t0 = init[2] if isinstance(init, tuple) and init and init[0] == "var" and len(init) > 2 else init
+            from_tx = any(isinstance(x, tuple) and x and ((x[0] == "param" and x[1] in tx_params) or
+                                                          (x[0] == "field" and x[2] == "transactions")) for x in subterms(t0)) and \
+                any(isinstance(x, tuple) and x and x[0] == "call" and parse_callee(x[1])[2] == "collect" for x in subterms(t0))
+            if not (d["ty"].startswith("alloc::vec::Vec<&cgt_core::models::Transaction") or from_tx):
+                continue
+            n += 1
+            srt = [(i, t, m) for i, t, m, r in sort_calls(F, b, wr) if r and r[0] == l]
+            # uses after which order matters: iteration, or being returned
+            its = [i for i, t in b.calls() if parse_callee(t["callee"])[2] in ("into_iter", "iter")
+                   and (root_of_operand(b, t["args"][0]) or (None,))[0] == l]
+            its += [i for i, si, s in b.assigns() if s["lhs"]["l"] == 0 and not place_proj(s["lhs"]) and s["rv"]["k"] == "use"
+                    and (op_place(s["rv"]["op"]) or {}).get("l") == l]
+            ok = bool(srt) and all(any(b.dominates(si, it) for si, _, _ in srt) for it in its) and \
+                all(_is_date_ticker_sort(F, b, t, m) for _, t, m in srt)
+            rep.ob("R4", f"{b.short}:{d['name']}:echo-date-ticker", ok,
+                   "transaction echo sorted by (date, ticker) before it is printed" if ok else
+                   "transaction echo is printed without a dominating (date, ticker) sort", b.loc(),
+                   key=f"R4:{b.short}:{d['name']}:echo-order")
     return n
 
 
@@ -509,14 +523,32 @@ def _mentions_start_year(t):
 def _is_date_ticker_sort(F, b, t, m):
     if m.startswith("wrapper:"):
         # wrapper must call the shared comparator with getters for date and ticker; check closure args read .date / .ticker
-        keys = []
-        for a in t["args"][1:]:
-            clo = _closure_of(b, a)
-            if clo and clo in F.bodies:
-                ct = Terms(F, F.bodies[clo], inline_depth=0)
-                r = ct.local(0)
-                pr = _param_root(r)
-                keys.append(".".join(pr[1]) if pr else show(r))
+        def getter_keys(fb, args):
+            keys = []
+            for a in args:
+                clo = _closure_of(fb, a)
+                if clo and clo in F.bodies:
+                    ct = Terms(F, F.bodies[clo], inline_depth=0)
+                    r = ct.local(0)
+                    pr = _param_root(r)
+                    keys.append(".".join(pr[1]) if pr else show(r))
+                else:
+                    p = op_place(a)
+                    r0 = root_of_operand(fb, a) if p is not None else None
+                    keys.append(("param", r0[0] - 1) if r0 and not r0[1] and 1 <= r0[0] <= fb.argc else None)
+            return keys
+        keys = getter_keys(b, t["args"][1:])
+        if len(keys) >= 2 and all(isinstance(k, tuple) and k and k[0] == "param" for k in keys[:2]):
+            # the getters are this (generic) function's own parameters: every caller must pass date / ticker getters
+            sites = list(F.call_sites(lambda cal, bid=b.id: cal == bid))
+            if not sites:
+                return False
+            for cb, ci, ct in sites:
+                ks = getter_keys(cb, [ct["args"][keys[0][1]], ct["args"][keys[1][1]]])
+                if not (isinstance(ks[0], str) and ks[0].endswith("date") and isinstance(ks[1], str) and ks[1].endswith("ticker")):
+                    return False
+            return True
+        keys = [k for k in keys if isinstance(k, str)]
         return len(keys) >= 2 and keys[0].endswith("date") or (len(keys) >= 2 and keys[0] in ("0",)) and True
     clo = _closure_of(b, t["args"][1]) if len(t["args"]) > 1 else None
     if clo and clo in F.bodies:
